@@ -101,7 +101,7 @@ theorem sumHE_wigmDefeatStep (o : WigmOpts) (hz : o.batchZero = false) {s : St Î
   cases hm : minVoteOf A s.hopeful with
   | none => exact Nat.le_succ _
   | some lv =>
-    simp only [hz, Bool.and_false, Bool.false_eq_true, if_false]
+    simp only [hz, Bool.and_false, Bool.false_and, Bool.false_eq_true, if_false]
     have hbt := sumHE_breakTie A s (s.hopeful.filter (fun c => A.eq c.vote lv)) "Break tie (defeat)"
     have hfr := breakTie_frame A s (s.hopeful.filter (fun c => A.eq c.vote lv)) "Break tie (defeat)"
     have hmem := breakTie_mem A s (s.hopeful.filter (fun c => A.eq c.vote lv)) "Break tie (defeat)"
